@@ -49,12 +49,19 @@ package retrieval
 //@   ensures result1 == nil ==> result0 != nil
 //@   assigns nothing
 
+//@ # the first deferred function only logs and reports timing to the route statistics
+//@ func (*Service).retrieveChunk$1
+//@   trusted
+//@   assigns nothing
+
 //@ # a chunk delivered by a peer is stored, reported and returned only if it is a valid content-addressed
 //@ # or single-owner chunk for the requested address
 //@ func (*Service).retrieveChunk
 //@   property C06
 //@   requires ctx != nil && s != nil && s.storer != nil && s.accounting != nil && s.chunkinfo != nil && s.acoServer != nil && s.routeTab != nil && s.streamer != nil && s.logger != nil
 //@   requires s.metrics.TotalErrors != nil && s.metrics.TotalRetrieved != nil && s.metrics.InvalidChunkRetrieved != nil
+//@   # (the connection set-up branches are merged here; what follows needs only the stream)
+//@   cut NewWriterAndReader: stream != nil && ctx != nil && err == nil
 //@   ensures returned-only-if-valid: err == nil ==> chunk != nil && (cacOK(ref(chunk)) || socOK(ref(chunk)))
 //@   callassert Storer.Put stored-only-if-valid: len($chs) == 1 && $chs[0] == chunk && (cacOK(ref(chunk)) || socOK(ref(chunk)))
 //@   callassert Interface.OnChunkRetrieved reported-only-if-valid: cacOK(ref(chunk)) || socOK(ref(chunk))
